@@ -36,7 +36,7 @@ macro_rules! impl_modulus {
             // Represents 1 in Montgomery form.
             const ONE: $uint_type = $crate::Uint::MAX
                 .rem_vartime(Self::MODULUS.as_nz_ref())
-                .wrapping_add(&$crate::Uint::ONE);
+                .add_mod(&$crate::Uint::ONE, Self::MODULUS.as_ref());
 
             // `R^2 mod MODULUS`, used to convert integers to Montgomery form.
             const R2: $uint_type =
